@@ -6,6 +6,7 @@ import Driver.RuleOps
 import Driver.CollOps
 import Driver.GateOps
 import Driver.PipeOps
+import Driver.FilterOps
 open Lean Driver
 
 def dispatch (op : String) (j : Json) : Except String Json :=
@@ -27,6 +28,8 @@ def dispatch (op : String) (j : Json) : Except String Json :=
   | "gate.eval" => gateEval j
   | "pipe.compose" => pipeCompose j
   | "pipe.sys" => pipeSys j
+  | "filter.applies" => filterApplies j
+  | "filter.case" => filterCase j
   | "ping" => pure (Json.mkObj [("pong", true)])
   | _ => throw s!"unknown op {op}"
 
